@@ -220,6 +220,10 @@ class Topology(ABC):
         """
         for i in interfaces:
             for ii in (i, *i.interface_list):
+                # the list may hold the ServicePort of a connection that was removed earlier in this loop
+                # (a service of a node connecting an interface of the same node): nothing left to disconnect
+                if not self.graph_model.node_exists(node_id=ii.node_id, label=ABCPropertyGraph.CLASS_ConnectionPoint):
+                    continue
                 # disconnect if connected to a network service
                 peers = ii.get_peers(itype=InterfaceType.ServicePort)
                 if peers:
